@@ -348,7 +348,7 @@ Lemma touches_comp_other : forall ow o s p,
 Proof.
   intros ow o s p Hin Hp. unfold comp_steps in Hin.
   destruct ow; cbn in Hin;
-    repeat (destruct Hin as [<-|Hin]; [cbn; repeat rewrite path_eqb_neq by apply Hp; reflexivity|]);
+    repeat (destruct Hin as [<-|Hin]; [cbn [touches]; repeat rewrite path_eqb_neq by apply Hp; reflexivity|]);
     destruct Hin.
 Qed.
 
@@ -356,7 +356,7 @@ Lemma touches_comp_meta : forall ow o s o', In s (comp_steps ow o) -> touches s 
 Proof.
   intros ow o s o' Hin. unfold comp_steps in Hin.
   destruct ow; cbn in Hin;
-    repeat (destruct Hin as [<-|Hin]; [cbn; repeat rewrite path_eqb_neq by congruence; reflexivity|]);
+    repeat (destruct Hin as [<-|Hin]; [cbn [touches]; repeat rewrite path_eqb_neq by congruence; reflexivity|]);
     destruct Hin.
 Qed.
 
@@ -468,7 +468,7 @@ Proof.
     cbn in HVe. destruct (all_ap_complete (r_fs rsC) n) eqn:Eall; [|discriminate].
     inversion HVe; subst rsV; cbn. split; [apply all_ap_complete_spec; exact Eall|].
     intros o'. eapply exec_frame; eauto. intros s Hs. destruct corrupt; cbn in Hs; [|destruct Hs].
-    destruct Hs as [<-|[]]. cbn. apply path_eqb_neq. congruence. }
+    destruct Hs as [<-|[]]. cbn [touches]. apply path_eqb_neq. congruence. }
   destruct HVpost as [Hbin HmetaV].
   destruct (o_comp o).
   - intros k Hk. split.
@@ -478,4 +478,298 @@ Proof.
       intros k' Hk'. apply Hbin. apply in_seq in Hk'. lia.
     + erewrite comp24_meta_frame by eauto. rewrite HmetaV. auto.
   - cbn in HC. inversion HC; subst rs1. intros k Hk. split; [left; auto|]. rewrite HmetaV. auto.
+Qed.
+
+(* ====================================================================== *)
+(* Safety: every state a run can stop in keeps the original recoverable      *)
+(* ====================================================================== *)
+Lemma go_out : forall plan crash fs st al,
+  exists c rs', exec (firstn c plan) (mkR fs false) = (rs', None) /\
+    out_fs (go plan crash fs st al) = r_fs rs' /\
+    out_checked (go plan crash fs st al) = r_checked rs'.
+Proof.
+  intros. unfold go.
+  destruct (exec (match crash with Some c => firstn c plan | None => plan end) (mkR fs false))
+    as [rs' e] eqn:E.
+  destruct (exec_prefix _ _ _ _ E) as [c [Hc Hx]]. cbn.
+  destruct crash as [c0|].
+  - rewrite firstn_firstn in Hx. eauto.
+  - eauto.
+Qed.
+
+Lemma input_present_orig : forall kd n fs t,
+  input_state kd n fs t = Present ->
+  fs (PFile Orig FMeta) = Complete /\
+  (t = TBin -> fs (PFile Orig FBin) = Complete) /\
+  (t = TCbin -> fs (PFile Orig FCbin) = Complete /\ fs (PFile Orig FCh) = Complete).
+Proof.
+  intros kd n fs t H. unfold input_state in H.
+  destruct (complete fs (PFile Orig FMeta)) eqn:Em; cbn in H; [|discriminate].
+  apply complete_true in Em. split; [exact Em|]. split; intros ->.
+  - destruct (fs (PFile Orig FBin)); try discriminate. reflexivity.
+  - destruct (fs (PFile Orig FCbin)); try discriminate.
+    destruct (complete fs (PFile Orig FCh)) eqn:Ec; [|discriminate]. apply complete_true in Ec. auto.
+Qed.
+
+Lemma frame_inv : forall kd n fs fs',
+  (forall f, fs' (PFile Orig f) = fs (PFile Orig f)) -> orig_ok fs -> inv kd n fs ->
+  orig_ok fs' /\ inv kd n fs'.
+Proof.
+  intros kd n fs fs' Hf Ho [Hm [Hb _]].
+  assert (orig_ok fs') by (unfold orig_ok in *; rewrite !Hf; exact Ho).
+  split; [assumption|]. unfold inv. rewrite !Hf. repeat split; auto. left; assumption.
+Qed.
+
+Lemma shank_steps_frame_orig : forall l rs rs' e f,
+  forallb shank_step l = true -> exec l rs = (rs', e) -> r_fs rs' (PFile Orig f) = r_fs rs (PFile Orig f).
+Proof.
+  intros l rs rs' e f Hs H. eapply exec_frame; eauto. intros s Hin.
+  apply shank_step_orig. rewrite forallb_forall in Hs. auto.
+Qed.
+
+Lemma forallb_firstn : forall (A : Type) (P : A -> bool) c l,
+  forallb P l = true -> forallb P (firstn c l) = true.
+Proof.
+  intros A P c l H. apply forallb_forall. intros x Hx. rewrite forallb_forall in H.
+  apply H. eapply In_firstn; eauto.
+Qed.
+
+Lemma shanks_ok_upd_orig : forall n fs f v, shanks_ok n fs -> shanks_ok n (upd fs (PFile Orig f) v).
+Proof. intros n fs f v H k Hk. unfold shank_ok. upd_simp. apply H; assumption. Qed.
+
+(* NP2.4: every state along a run; and if the run changed an Orig file at all,
+   it did so in its final delete_NP24 step, with check_completed set by a
+   successful verification of this very run and all shank outputs complete *)
+Lemma np24_prefix : forall n w o ow corrupt tf fs c rs',
+  (tf = FBin \/ tf = FCbin) -> orig_ok fs -> inv NP24 n fs ->
+  exec (firstn c (plan24 n w o ow corrupt tf fs)) (mkR fs false) = (rs', None) ->
+  inv NP24 n (r_fs rs') /\
+  ((exists f, r_fs rs' (PFile Orig f) <> fs (PFile Orig f)) ->
+     o_post o = true /\ o_del o = true /\ r_checked rs' = true /\ shanks_ok n (r_fs rs') /\
+     (length (prep24 ow fs n ++ body24 n w o ow corrupt) < c)%nat /\
+     already24 ow fs n = false).
+Proof.
+  intros n w o ow corrupt tf fs c rs' Htf Ho Hinv H. unfold plan24 in H.
+  destruct (already24 ow fs n) eqn:Eal.
+  - assert (Hf : forall f, r_fs rs' (PFile Orig f) = fs (PFile Orig f)).
+    { intros f. eapply (shank_steps_frame_orig _ (mkR fs false)); eauto.
+      apply forallb_firstn, prep24_shape. }
+    split; [apply (frame_inv NP24 n fs); auto|]. intros [f Hne]. rewrite Hf in Hne. contradiction.
+  - set (A := prep24 ow fs n ++ body24 n w o ow corrupt) in *.
+    rewrite firstn_app in H. apply exec_app_ok in H as [rs1 [HA HD]].
+    assert (Hf1 : forall f, r_fs rs1 (PFile Orig f) = fs (PFile Orig f)).
+    { intros f. eapply (shank_steps_frame_orig _ (mkR fs false)); eauto.
+      apply forallb_firstn, pre24_shape. }
+    assert (Hsame : rs' = rs1 -> inv NP24 n (r_fs rs') /\
+              ((exists f, r_fs rs' (PFile Orig f) <> fs (PFile Orig f)) ->
+               o_post o = true /\ o_del o = true /\ r_checked rs' = true /\ shanks_ok n (r_fs rs') /\
+               (length A < c)%nat /\ false = false)).
+    { intros ->. split; [apply (frame_inv NP24 n fs); auto|].
+      intros [f Hne]. rewrite Hf1 in Hne. contradiction. }
+    unfold del24 in HD. destruct (o_del o) eqn:Edel.
+    2:{ rewrite firstn_nil in HD. cbn in HD. inversion HD; subst. auto. }
+    destruct (c - length A)%nat as [|m] eqn:Ec.
+    { cbn in HD. inversion HD; subst. auto. }
+    cbn [firstn] in HD. rewrite firstn_nil in HD. cbn in HD.
+    destruct (r_checked rs1) eqn:Eck.
+    2:{ inversion HD; subst. auto. }
+    unfold unlink in HD. destruct (present (r_fs rs1) (PFile Orig tf)) eqn:Epr; [|discriminate].
+    inversion HD; subst rs'; clear HD. cbn.
+    assert (HcA : (length A < c)%nat) by lia.
+    rewrite firstn_all2 in HA by lia.
+    destruct (body_checked_shanks_ok _ _ _ _ _ _ _ HA Eck) as [Hpost Hsh].
+    destruct Hinv as [Hm [Hb _]].
+    assert (Hsh' : shanks_ok n (upd (r_fs rs1) (PFile Orig tf) Absent)) by (apply shanks_ok_upd_orig; exact Hsh).
+    split.
+    + unfold inv. repeat split.
+      * destruct Htf as [-> | ->]; upd_simp; rewrite Hf1; exact Hm.
+      * destruct Htf as [-> | ->]; upd_simp; [discriminate | rewrite Hf1; exact Hb].
+      * right. split; [reflexivity | exact Hsh'].
+    + intros _. split; [exact Hpost|]. split; [reflexivity|]. split; [exact Eck|].
+      split; [exact Hsh'|]. split; [exact HcA | reflexivity].
+Qed.
+
+(* NP2.1 *)
+Definition lf21_step (s : step) : bool :=
+  match s with
+  | SAppend21 _ => true
+  | STrunc (PFile Lf21 _) | SUnlink (PFile Lf21 _) _ => true
+  | SWriteMeta Lf21 | SCompBegin Lf21 | SCompEnd Lf21 | SRename Lf21 => true
+  | _ => false
+  end.
+Lemma lf21_step_orig : forall s f, lf21_step s = true -> touches s (PFile Orig f) = false.
+Proof.
+  intros s f H. destruct s; cbn in *; try reflexivity; try discriminate;
+    repeat match goal with
+           | p : path |- _ => destruct p
+           | o : owner |- _ => destruct o
+           end; cbn in *; try reflexivity; try discriminate.
+Qed.
+Lemma lf21_steps_frame_orig : forall l rs rs' e f,
+  forallb lf21_step l = true -> exec l rs = (rs', e) -> r_fs rs' (PFile Orig f) = r_fs rs (PFile Orig f).
+Proof.
+  intros l rs rs' e f Hs H. eapply exec_frame; eauto. intros s Hin.
+  apply lf21_step_orig. rewrite forallb_forall in Hs. auto.
+Qed.
+Lemma head21_shape : forall w,
+  forallb lf21_step ([STrunc (PFile Lf21 FBin)] ++ wins21 w ++ [SWriteMeta Lf21]) = true.
+Proof.
+  intros. cbn. rewrite forallb_app. apply andb_true_iff. split; [|reflexivity].
+  unfold wins21. destruct w; [reflexivity|]. rewrite forallb_app. apply andb_true_iff. split; [|reflexivity].
+  apply forallb_forall. intros s Hs. apply in_map_iff in Hs as [x [<- _]]. reflexivity.
+Qed.
+Lemma comp_lf21_shape : forall ow, forallb lf21_step (comp_steps ow Lf21) = true.
+Proof. destruct ow; reflexivity. Qed.
+
+(* the in-place compression of the original: at every point either the .bin is
+   still complete, or it is gone and the finished .cbin + .ch are complete *)
+Definition orig21_ok (fs : fsys) : Prop :=
+  fs (PFile Orig FBin) = Complete \/
+  (fs (PFile Orig FBin) = Absent /\ fs (PFile Orig FCbin) = Complete /\ fs (PFile Orig FCh) = Complete).
+
+Lemma comp_core_orig_prefix : forall k rs rs',
+  r_fs rs (PFile Orig FBin) = Complete ->
+  exec (firstn k (comp_core Orig)) rs = (rs', None) ->
+  orig21_ok (r_fs rs') /\ r_fs rs' (PFile Orig FMeta) = r_fs rs (PFile Orig FMeta).
+Proof.
+  intros k rs rs' Hb H. unfold comp_core in H.
+  destruct k as [|[|[|[|k]]]]; cbn [firstn exec] in H.
+  - inversion H; subst. split; [left; exact Hb | reflexivity].
+  - rewrite sem_compbegin in H by (rewrite Hb; discriminate). inversion H; subst; cbn.
+    unfold orig21_ok. upd_simp. auto.
+  - rewrite sem_compbegin in H by (rewrite Hb; discriminate).
+    rewrite sem_compend in H by (cbn; upd_simp; exact Hb). inversion H; subst; cbn.
+    unfold orig21_ok. upd_simp. auto.
+  - rewrite sem_compbegin in H by (rewrite Hb; discriminate).
+    rewrite sem_compend in H by (cbn; upd_simp; exact Hb).
+    rewrite sem_rename in H by (cbn; upd_simp; discriminate). inversion H; subst; cbn.
+    unfold orig21_ok. upd_simp. auto.
+  - rewrite firstn_nil in H.
+    rewrite sem_compbegin in H by (rewrite Hb; discriminate).
+    rewrite sem_compend in H by (cbn; upd_simp; exact Hb).
+    rewrite sem_rename in H by (cbn; upd_simp; discriminate).
+    rewrite sem_unlink_present in H by (cbn; upd_simp; rewrite Hb; discriminate).
+    inversion H; subst; cbn. unfold orig21_ok. upd_simp. split; [right; auto | reflexivity].
+Qed.
+
+Lemma orig21_ok_inv : forall n fs, orig21_ok fs -> fs (PFile Orig FMeta) = Complete -> inv NP21 n fs /\ orig_ok fs.
+Proof.
+  intros n fs H Hm. assert (orig_ok fs) by (destruct H as [H|[_ H]]; [left|right]; auto).
+  split; [|assumption]. unfold inv. repeat split; auto.
+  - destruct H as [H|[H _]]; rewrite H; discriminate.
+  - left; assumption.
+Qed.
+
+Lemma np21_prefix : forall kd n w o ow tf fs c rs',
+  orig_ok fs -> inv kd n fs -> (tf = FBin -> fs (PFile Orig FBin) = Complete) ->
+  exec (firstn c (plan21 w o ow tf fs)) (mkR fs false) = (rs', None) ->
+  inv kd n (r_fs rs') /\ orig_ok (r_fs rs') /\
+  (fs (PFile Orig FBin) = Complete -> orig21_ok (r_fs rs')).
+Proof.
+  intros kd n w o ow tf fs c rs' Ho Hinv Htf H. unfold plan21 in H.
+  assert (Hsame : forall rs1 : rstate, (forall f, r_fs rs1 (PFile Orig f) = fs (PFile Orig f)) ->
+            inv kd n (r_fs rs1) /\ orig_ok (r_fs rs1) /\
+            (fs (PFile Orig FBin) = Complete -> orig21_ok (r_fs rs1))).
+  { intros rs1 Hf. destruct (frame_inv kd n fs (r_fs rs1) Hf Ho Hinv) as [X Y].
+    split; [exact Y|]. split; [exact X|]. intros Hb. left. rewrite Hf. exact Hb. }
+  destruct (already21 ow fs).
+  { rewrite firstn_nil in H. cbn in H. inversion H; subst. apply Hsame. reflexivity. }
+  rewrite firstn_app in H. apply exec_app_ok in H as [rs1 [HP HQ]].
+  assert (Hf1 : forall f, r_fs rs1 (PFile Orig f) = fs (PFile Orig f)).
+  { intros f. eapply (lf21_steps_frame_orig _ (mkR fs false)); eauto. apply forallb_firstn, head21_shape. }
+  destruct (o_comp o).
+  2:{ rewrite firstn_nil in HQ. cbn in HQ. inversion HQ; subst. apply Hsame. exact Hf1. }
+  rewrite firstn_app in HQ. apply exec_app_ok in HQ as [rs2 [HO HL]].
+  assert (Hf2 : forall f, r_fs rs' (PFile Orig f) = r_fs rs2 (PFile Orig f)).
+  { intros f. eapply lf21_steps_frame_orig; eauto. apply forallb_firstn, comp_lf21_shape. }
+  unfold origcomp21 in HO. destruct tf;
+    try (rewrite firstn_nil in HO; cbn in HO; inversion HO; subst rs2;
+         apply Hsame; intros f; rewrite Hf2; apply Hf1).
+  fold (comp_core Orig) in HO.
+  assert (Hb1 : r_fs rs1 (PFile Orig FBin) = Complete) by (rewrite Hf1; auto).
+  destruct (comp_core_orig_prefix _ _ _ Hb1 HO) as [Hok Hm].
+  assert (Hok' : orig21_ok (r_fs rs')) by (unfold orig21_ok in *; rewrite !Hf2; exact Hok).
+  assert (Hm' : r_fs rs' (PFile Orig FMeta) = Complete).
+  { rewrite Hf2, Hm, Hf1. apply Hinv. }
+  destruct (orig21_ok_inv n _ Hok' Hm') as [Hi Hoo].
+  split; [|split; [exact Hoo | intros _; exact Hok']].
+  destruct Hi as [A [B _]]. unfold inv. split; [exact A|]. split; [exact B|]. left; exact Hoo.
+Qed.
+
+Lemma run_once_inv : forall kd n w fs r, inv kd n fs -> inv kd n (out_fs (run_once kd n w fs r)).
+Proof.
+  intros kd n w fs r Hinv. unfold run_once.
+  destruct (input_state kd n fs (r_target r)) eqn:Ein; try exact Hinv.
+  destruct (input_present_orig _ _ _ _ Ein) as [Hm [HB HC]].
+  destruct (r_target r) eqn:Et; try exact Hinv.
+  - (* TBin *)
+    assert (Ho : orig_ok fs) by (left; auto).
+    destruct kd; try exact Hinv.
+    + destruct (go_out (plan24 n w (r_opts r) (r_ow r) (r_corrupt r) (target_form TBin) fs) (r_crash r) fs
+                  (if already24 (r_ow r) fs n then 0%Z else 1%Z) (if already24 (r_ow r) fs n then 1%Z else 0%Z))
+        as [c [rs' [Hx [Hfs _]]]].
+      rewrite Hfs. exact (proj1 (np24_prefix _ _ _ _ _ _ _ _ _ (or_introl eq_refl) Ho Hinv Hx)).
+    + destruct (go_out (plan21 w (r_opts r) (r_ow r) (target_form TBin) fs) (r_crash r) fs
+                  (if already21 (r_ow r) fs then 0%Z else 1%Z) (if already21 (r_ow r) fs then 1%Z else 0%Z))
+        as [c [rs' [Hx [Hfs _]]]].
+      rewrite Hfs. exact (proj1 (np21_prefix _ _ _ _ _ _ _ _ _ Ho Hinv (fun _ => HB eq_refl) Hx)).
+  - (* TCbin *)
+    assert (Ho : orig_ok fs) by (right; auto).
+    destruct kd; try exact Hinv.
+    + destruct (go_out (plan24 n w (r_opts r) (r_ow r) (r_corrupt r) (target_form TCbin) fs) (r_crash r) fs
+                  (if already24 (r_ow r) fs n then 0%Z else 1%Z) (if already24 (r_ow r) fs n then 1%Z else 0%Z))
+        as [c [rs' [Hx [Hfs _]]]].
+      rewrite Hfs. exact (proj1 (np24_prefix _ _ _ _ _ _ _ _ _ (or_intror eq_refl) Ho Hinv Hx)).
+    + destruct (go_out (plan21 w (r_opts r) (r_ow r) (target_form TCbin) fs) (r_crash r) fs
+                  (if already21 (r_ow r) fs then 0%Z else 1%Z) (if already21 (r_ow r) fs then 1%Z else 0%Z))
+        as [c [rs' [Hx [Hfs _]]]].
+      rewrite Hfs.
+      assert (Htf : target_form TCbin = FBin -> fs (PFile Orig FBin) = Complete) by (cbn; discriminate).
+      exact (proj1 (np21_prefix _ _ _ _ _ _ _ _ _ Ho Hinv Htf Hx)).
+Qed.
+
+Lemma init_inv : forall kd n c, inv kd n (init_fs c).
+Proof.
+  intros. unfold inv, recoverable, orig_ok. cbn. destruct c; repeat split; try discriminate; auto.
+Qed.
+
+Lemma history_inv : forall kd n w h fs, inv kd n fs -> inv kd n (state_after kd n w fs h).
+Proof.
+  intros kd n w. induction h as [|r h IH]; intros fs H; cbn; [exact H|].
+  apply IH. apply run_once_inv. exact H.
+Qed.
+
+Lemma original_recoverable : forall kd n w c h,
+  let fs := state_after kd n w (init_fs c) h in
+  fs (PFile Orig FMeta) = Complete /\ recoverable kd n fs.
+Proof.
+  intros. destruct (history_inv kd n w h (init_fs c) (init_inv kd n c)) as [A [_ B]]. auto.
+Qed.
+
+(* check_completed is set only by a verification step that found every shank's
+   ap.bin complete at that moment *)
+Lemma check_completed_sound : forall l rs rs',
+  r_checked rs = false -> exec l rs = (rs', None) -> r_checked rs' = true ->
+  exists l1 m l2 rsv, l = l1 ++ SVerify m :: l2 /\ exec l1 rs = (rsv, None) /\
+    forall k, (k < m)%nat -> r_fs rsv (PFile (Shank k Ap) FBin) = Complete.
+Proof.
+  induction l as [|s l IH]; intros rs rs' Hc H Hck.
+  - cbn in H. inversion H; subst. congruence.
+  - apply exec_cons_ok in H as [rs1 [Hs Hx]].
+    destruct (is_verify s) eqn:Ev.
+    + destruct s; try discriminate. exists [], n, l, rs. split; [reflexivity|]. split; [reflexivity|].
+      cbn in Hs. destruct (all_ap_complete (r_fs rs) n) eqn:E; [|discriminate].
+      apply all_ap_complete_spec. exact E.
+    + pose proof (step_checked _ _ _ Hs Ev) as Hc1. rewrite Hc in Hc1.
+      destruct (IH _ _ Hc1 Hx Hck) as [l1 [m [l2 [rsv [El [Hx1 Hall]]]]]].
+      exists (s :: l1), m, l2, rsv. split; [cbn; rewrite El; reflexivity|]. split; [|exact Hall].
+      cbn. rewrite Hs. exact Hx1.
+Qed.
+
+Lemma split_input_noop : forall kd n w fs r k,
+  r_target r = TShank k -> input_state kd n fs (r_target r) = Present ->
+  let o := run_once kd n w fs r in
+  out_outcome o = Status 0 /\ out_processed o = true /\ out_trace o = [] /\ forall p, out_fs o p = fs p.
+Proof.
+  intros kd n w fs r k Ht Hin. unfold run_once. rewrite Hin, Ht. cbn. auto.
 Qed.
